@@ -90,6 +90,15 @@ def table_for_bits(m, k):
     ]
 
 
+_named_cache = {}
+
+
+def named_pool(strategy_name, m, k, seed=0):
+    """{'base','shared','last','coinciding'} -> key, for the patterns the pool offers for this geometry"""
+    alphabet(strategy_name, m, k, seed)
+    return _named_cache[(strategy_name, m, k, seed)]
+
+
 def pool_keys(strategy_name, m, k, seed=0, count=6):
     """Concrete keys for a shipped strategy, picked by deterministic search so that the wanted
     collision patterns occur for THIS geometry where the pool offers them:
@@ -101,22 +110,27 @@ def pool_keys(strategy_name, m, k, seed=0, count=6):
     cells = {key: [h % m for h in hf(key, k)] for key in pool}
     keys = [pool[0]]
     covered = []
+    named = {"base": pool[0]}
     base = set(cells[pool[0]])
     for key in pool[1:]:
         if set(cells[key]) & base and key not in keys:
             keys.append(key)
             covered.append("shared_cell")
+            named["shared"] = key
             break
     for key in pool[1:]:
         if (m - 1) in cells[key] and key not in keys:
             keys.append(key)
             covered.append("last_cell")
+            named["last"] = key
             break
     for key in pool[1:]:
         if len(set(cells[key])) < len(cells[key]) and key not in keys:
             keys.append(key)
             covered.append("coinciding_positions")
+            named["coinciding"] = key
             break
+    _named_cache[(strategy_name, m, k, seed)] = named
     keys.append(f"{prefix}bytes".encode())
     keys.append(f"{prefix}ü€\U0001f600")
     for key in pool[1:]:
